@@ -52,6 +52,7 @@ Dispatch(e) == LET k == e.k  a == e.a IN
     \/ e.op = "WriteUnder"  /\ WriteUnder(k, a.which, a.i, a.x)
     \/ e.op = "Extract"     /\ Extract(k, a.which)
     \/ e.op = "IterRel"     /\ IterRel(k, a.path, a.i, a.j)
+    \/ e.op = "Algo"        /\ Algo(k, a.alg, a.i, a.m, a.j, e.st.o[k].idx)
     \/ e.op = "Feature"     /\ Feature(k, a.name)
 
 TNext ==
